@@ -49,6 +49,17 @@ CLAIMED = {
                      'once, the call terminates.',
                 note='trusted: SimQueue has queue.Queue semantics; pre-emption only at queue operations and explicit item steps',
                 technique='deterministic simulation: baton-passing scheduler adopting the pool\'s real worker threads, seeded completion-order search'),
+    'C08': dict(level='exploration', ref='DESIGN.md 6.4',
+                text='seeded search over schedules of 2-6 concurrent tile requests (threads sharing a TileManager and separate '
+                     'processes sharing cache and lock directories) through the real TileManager/TileCreator/TileLocker/backend '
+                     'on SimFS with a position-and-generation-encoding upstream stub; swarm over backend, meta size/buffer, '
+                     'minimize_meta_requests, bulk_meta_tiles, concurrent_tile_creators; modes: plain, stalled lock holder '
+                     '(independence in simulated time), upstream failures, process kill. Oracle: every response pixel-exact '
+                     'and attributable to one fetch, final cache holds only correct in-grid tiles incl. every served tile '
+                     '(API + raw walk), one fetch per meta tile, termination.',
+                note='trusted: stub source instead of HTTP client, SimFS flock/rename semantics, pre-emption at seam calls only; '
+                     'TileManager level (not the WSGI stack)',
+                technique='deterministic simulation: baton-passing scheduler over threads and simulated processes, simulated fs/locks/upstream, seeded schedule + fault search'),
 }
 
 NA = {
@@ -64,7 +75,7 @@ NA = {
     'C18': 'well-formedness/escaping of responses is a function of the request bytes',
 }
 
-PENDING = ['C08', 'C11', 'C12', 'C13', 'C20']
+PENDING = ['C11', 'C12', 'C13', 'C20']
 
 
 def main():
